@@ -13,6 +13,15 @@ def single_expr(body_or_expr):
     e = hir.simp(body_or_expr)
     while isinstance(e, dict) and e.get("k") == "block":
         st = hir.stmts_of(e)
+        if len(st) != 1 and "unsafe" not in e and "label" not in e:
+            # `{ let t = f(..); g(t, ..) }` is the single expression `g(f(..), ..)`
+            import norm
+            e2 = hir.simp(norm.single_use_temps(e))
+            if isinstance(e2, dict) and (e2.get("k") != "block" or len(hir.stmts_of(e2)) == 1):
+                e = e2
+                if e.get("k") != "block":
+                    break
+                st = hir.stmts_of(e)
         if len(st) != 1:
             import hirpp
             raise Unrecognised(f"the body was expected to be a single expression, found {len(st)} statements"
